@@ -558,6 +558,38 @@ def job_objects(ctx, k):
                     ctx.close(np.asarray(Qo.to_DCM()), rq.R(qq), TOL, "same raw numbers in the two storage orders: to_DCM answers for the object's own reading", key)
                     ctx.close(np.asarray(Qo.rotate(v.copy())), rq.R(qq) @ v, TOL, "same raw numbers in the two storage orders: rotate answers for the object's own reading", key)
                     ctx.close(np.asarray(DCM(q=np.array([Qo.w, Qo.x, Qo.y, Qo.z]))), rq.R(qq), TOL, 'same raw numbers in the two storage orders: DCM(q=(w, x, y, z))', key)
+    # (7) every finite vector is rotated like R v: the null vector, a null column inside a 3-by-N block, vectors of denormal length
+    for qi, q in enumerate(qs):
+        Qo = Quaternion(q.copy()); Rq = rq.R(q)
+        blk = np.array([[1.0, 2.0, -3.0], [0.0, 0.0, 0.0], [0.5, -0.25, 4.0]]).T
+        for nm, vv in (('null vector', np.zeros(3)), ('vector of length 1e-170', np.array([1e-170, -2e-170, 2e-170])), ('vector of length 1e+150', np.array([1e150, -2e150, 2e150])), ('3-by-3 block with a null column', blk)):
+            key = f'q#{qi} v={nm} k{k}'
+            try:
+                with np.errstate(all='ignore'):
+                    out = np.asarray(Qo.rotate(vv.copy()), float)
+                    out2 = np.asarray(O.q_rot(rq.qconj(q).copy(), vv.copy()), float) if vv.ndim == 1 else None
+            except Exception as ex:
+                ctx.fail('rotate raises for a finite vector', key, repr(ex)[:120], 'R v'); continue
+            sc = max(1e-300, float(np.abs(vv).max()))
+            ctx.close(out / sc, (Rq @ vv) / sc, TOL, 'Quaternion.rotate(v) = R v for every finite v (null and extreme lengths included)', key)
+            if out2 is not None:
+                ctx.close(out2 / sc, (Rq @ vv) / sc, TOL, 'q_rot(q*, v) = R v for every finite v (null and extreme lengths included)', key)
+    # (8) the public attribute .A re-bound to another versor on a live object: every accessor that reads .A (w..z, to_DCM, rotate, product, conjugate)
+    #     follows it together - the answers of a fresh object built from the new numbers
+    for qi, q in enumerate(qs):
+        for order in ('H', 'S'):
+            newq = rq.qmul(q, qs[(qi + 1) % len(qs)])
+            Qo = Quaternion((q if order == 'H' else np.roll(q, -1)).copy(), order=order)
+            Qo.to_DCM(); Qo.rotate(v.copy())
+            Qo.A = (newq if order == 'H' else np.roll(newq, -1)).copy()
+            Fo = Quaternion((newq if order == 'H' else np.roll(newq, -1)).copy(), order=order)
+            key = f'q#{qi} order={order} k{k}'
+            for nm, fn in (('to_DCM', lambda Q_: np.asarray(Q_.to_DCM(), float)), ('rotate', lambda Q_: np.asarray(Q_.rotate(v.copy()), float)), ('w,x,y,z', lambda Q_: np.array([Q_.w, Q_.x, Q_.y, Q_.z], float)),
+                           ('product', lambda Q_: np.asarray(Q_.product(qs[0].copy()), float)), ('conjugate', lambda Q_: np.asarray(Q_.conjugate, float)), ('mult_L', lambda Q_: np.asarray(Q_.mult_L(), float))):
+                try:
+                    ctx.close(fn(Qo), fn(Fo), TOL, f'after .A was re-bound on a live object {nm} answers for the new numbers (like every other accessor)', key)
+                except Exception as ex:
+                    ctx.fail(f'{nm} raises after .A was re-bound', key, repr(ex)[:120], 'the answer of a fresh object')
     ctx.cls('scalar-last-array-and-same-raw-numbers')
     ctx.sample({'default_objects': ['Quaternion()', 'DCM()', 'QuaternionArray()'], 'derived': ['-q', '+q', 'copy', 'deepcopy']})
 
